@@ -67,7 +67,7 @@ def setup(ex: Exec, ch: Choices, info: dict[str, Any]) -> None:
             send(w, ex.wf_id, persistent, "sig1")
             info["sent"] = True
         if sweeps and n[0] % 7 == 3:
-            w.processor.run_recovery()
+            w.run_sweep()
             w.fault("recovery_sweep")
         n[0] += 1
 
